@@ -483,6 +483,16 @@ func skipSpaceASCII(c *Ctx, rule string) {
 				if _, isBuiltin := v.Call.Value.(*ssa.Builtin); isBuiltin {
 					continue
 				}
+				if callee := v.Call.StaticCallee(); callee != nil && extName(callee) == "strings.TrimLeft" && len(v.Call.Args) == 2 {
+					// strings.TrimLeft(s, " \t"): a byte set given literally, SP and HTAB only
+					if k, isK := v.Call.Args[1].(*ssa.Const); isK && k.Value != nil && k.Value.Kind() == constant.String {
+						set := constant.StringVal(k.Value)
+						if set != "" && strings.Trim(set, " \t") == "" {
+							n++
+							continue
+						}
+					}
+				}
 				if callee := v.Call.StaticCallee(); callee == nil || callee.Pkg != fn.Pkg {
 					ok, why = false, "skipSpace delegates to "+v.Call.String()+" at "+c.P.Pos(v.Pos())+": library trimming/splitting helpers use Unicode white space (NBSP, NEL, U+3000, ...), which is not optional whitespace in a header token list"
 				}
